@@ -28,8 +28,8 @@ Oracle clauses
                   both values already agree with the specification - otherwise spec-value reports it)
   laws            on deep copies of the replicas of every reached world: a+b == b+a, (a+b)+c == a+(b+c),
                   a+a == a, where == is the library's __eq__ plus equality of .value
-  roundtrip       from_dict(to_dict(r)) == r, same value, same node_id
-  merge-pure      merge(d, s) leaves s unchanged (s == deep copy taken before, same value)
+  roundtrip       from_dict(to_dict(r)) == r and has the same value
+  (a merge that disturbs its SOURCE replica is caught by spec-value on the source, trigger 'merge-source')
 """
 from __future__ import annotations
 
@@ -237,24 +237,22 @@ class World:
         elif kind in ("merge", "gossip"):
             _, d, s = lab
             before = self._diff(d)
+            before_src = self._diff(s)
             src = self.reps[s]
-            src_copy = copy.deepcopy(src)
             if kind == "merge":
                 self.reps[d].merge(src)
             else:
                 self.reps[d].merge(type(src).from_dict(src.to_dict()))
             self.know[d] = self.know[d] | self.know[s]
-            if not (src == src_copy) or src.value != src_copy.value:
-                self.pending.append((f"{self.typ}/merge-pure/source-modified",
-                                     f"{kind}({NAMES[d]} <- {NAMES[s]}) changed the source replica: "
-                                     f"{_show(src_copy)} became {_show(src)}"))
+            # the source received nothing: its value must still be the one specified for know[s]
+            self._attribute(s, before_src, "merge-source")
             self._attribute(d, before, "merge")
         elif kind == "rt":
             r = lab[1]
             before = self._diff(r)
             old = self.reps[r]
             new = type(old).from_dict(old.to_dict())
-            if not (new == old) or new.value != old.value or new.node_id != old.node_id:
+            if not (new == old) or not (old == new) or new.value != old.value:
                 shape = "state-changed"
                 if self.typ == "ORSet" and any(not isinstance(self.ops[i][1], str) for i in self.know[r]):
                     shape = "non-str-element"
